@@ -89,7 +89,7 @@ CHECKS = {
     ),
     'C18': dict(
         pkg='./c18', test='TestC18', level='exploration',
-        quick=dict(shards=16, checks=8),
+        quick=dict(shards=16, checks=14),
         thorough=dict(shards=16, checks=320, budget_s=3000),
         level_text=('Every generated case runs the client computation (deterministic 4-argument variant through a tag-guarded export, or the public '
                     'telegram.GetInputCheckPassword with the client\'s own ephemeral) against an independent SRP-2048 server written from '
